@@ -8,7 +8,7 @@ From Coq Require Import Permutation.
 From LP Require Import Proofs.Tactics Proofs.LedgerBase Proofs.Loop Proofs.Shuffle Proofs.Gates Proofs.Frames Proofs.Filter
   Proofs.Alloc Proofs.Confirm Proofs.Settle Proofs.Ledger Proofs.Stage Proofs.Resume Proofs.FisherYates Proofs.Rng Proofs.Reserve
   Proofs.Guaranteed Proofs.GuaranteedLoop Proofs.Leftover Proofs.ClaimLedger Proofs.Partition Proofs.Lifecycle Proofs.Setup
-  Proofs.SetupGt Proofs.Vesting Proofs.VestedCover Proofs.VestedLifecycle.
+  Proofs.SetupGt Proofs.Nft Proofs.SetupCover Proofs.Vesting Proofs.VestedCover Proofs.VestedLifecycle.
 Open Scope N_scope.
 
 (** what an allocation may change *)
@@ -22,7 +22,9 @@ Proof. intros (r & ba & la & g & u & ->) (r' & ba' & la' & g' & u' & ->). exists
 
 (** the reservation counter is the sum of the holders' reservations, and holders have tickets *)
 Definition GRes (v2 : bool) (s : state) (tg : N) : Prop :=
-  tg = total_reserved v2 s /\ NoDup (gt_users s) /\ (forall u, In u (gt_users s) -> range s u <> None).
+  tg = total_reserved v2 s /\ NoDup (gt_users s) /\ (forall u, In u (gt_users s) -> range s u <> None) /\
+  (forall u, ~ In u (gt_users s) -> reserved v2 s u = 0) /\
+  (forall u, blacklisted s u = true -> range s u <> None /\ ~ In u (gt_users s)).
 
 Lemma sum_reserved_other v2 s s' l :
   (forall u, In u l -> uts s' u = uts s u) ->
@@ -37,14 +39,16 @@ Lemma GRes_add v2 s tg buyer fl us (ins : bool) s' :
   range s' = upd (range s) buyer (Some fl) ->
   uts s' = upd (uts s) buyer (Some us) ->
   gt_users s' = (if ins then gt_users s ++ [buyer] else gt_users s) ->
+  blacklisted s' = blacklisted s ->
   let r := if v2 then sumN (map fst (us_infos us)) else us_sg us + us_mg us in
+  (ins = false -> r = 0) ->
   GRes v2 s' (tg + (if ins then r else 0)).
 Proof.
-  intros (Htg & Hnd & Hr) Hnone Hrange Huts Hg r.
+  intros (Htg & Hnd & Hr & Hz & Hbl) Hnone Hrange Huts Hg Hb r Hr0.
   assert (Hni : ~ In buyer (gt_users s)) by (intros Hi; apply (Hr _ Hi); exact Hnone).
   assert (Hother : forall u, In u (gt_users s) -> uts s' u = uts s u).
   { intros u Hu. rewrite Huts. apply upd_other. intros ->. contradiction. }
-  split; [|split].
+  split; [|split; [|split; [|split]]].
   - unfold total_reserved. rewrite Hg. destruct ins.
     + rewrite map_app, sumN_app. cbn [map]. rewrite sumN_cons, sumN_nil.
       rewrite (sum_reserved_other v2 s s' _ Hother). unfold reserved at 2. rewrite Huts, upd_same.
@@ -53,6 +57,13 @@ Proof.
   - rewrite Hg. destruct ins; [|exact Hnd]. apply NoDup_snoc; assumption.
   - intros u Hu. rewrite Hrange. unfold upd. destruct (N.eqb_spec u buyer) as [->|Hne]; [discriminate|].
     apply Hr. rewrite Hg in Hu. destruct ins; [|exact Hu]. apply in_app_or in Hu. destruct Hu as [Hu|[Hu|[]]]; [exact Hu|congruence].
+  - intros u Hu. unfold reserved. rewrite Huts. unfold upd. destruct (N.eqb_spec u buyer) as [->|Hne].
+    + fold r. destruct ins; [|apply Hr0; reflexivity]. exfalso. apply Hu. rewrite Hg. apply in_or_app. right. left. reflexivity.
+    + apply Hz. intros Hi. apply Hu. rewrite Hg. destruct ins; [apply in_or_app; left|]; exact Hi.
+  - intros u Hu. rewrite Hb in Hu. destruct (Hbl u Hu) as [Hru Hnu]. split.
+    + rewrite Hrange. unfold upd. destruct (u =? buyer); [discriminate|exact Hru].
+    + rewrite Hg. destruct ins; [|exact Hnu]. intros Hi. apply in_app_or in Hi. destruct Hi as [Hi|[Hi|[]]]; [contradiction|].
+      subst u. contradiction.
 Qed.
 
 Lemma set_insert_new x l : ~ In x l -> set_insert x l = l ++ [x].
@@ -71,14 +82,15 @@ Proof. exists (range s), (batch s), (last_ticket_id s), (gt_users s), u. destruc
 Lemma try_create_only s buyer n s1 :
   try_create_tickets s buyer n = Ok s1 ->
   range s buyer = None /\ alloc_only s s1 /\
-  (exists fl, range s1 = upd (range s) buyer (Some fl)) /\ gt_users s1 = gt_users s /\ uts s1 = uts s.
+  (exists fl, range s1 = upd (range s) buyer (Some fl)) /\ gt_users s1 = gt_users s /\ uts s1 = uts s /\
+  blacklisted s1 = blacklisted s.
 Proof.
   unfold try_create_tickets. intros Hc.
   apply bind_ok in Hc. destruct Hc as (u3 & Hr & Hc). apply require_ok' in Hr.
   assert (Hnone : range s buyer = None) by (destruct (range s buyer); [discriminate|reflexivity]).
   apply bind_ok in Hc. destruct Hc as (m & _ & Hc). apply bind_ok in Hc. destruct Hc as (u4 & _ & Hc).
   apply bind_ok in Hc. destruct Hc as (la & _ & Hc). inversion Hc; subst s1; clear Hc.
-  split; [exact Hnone|]. split; [|split; [eexists; reflexivity|split; reflexivity]].
+  split; [exact Hnone|]. split; [|split; [eexists; reflexivity|repeat split; reflexivity]].
   apply alloc_only_rbl.
 Qed.
 
@@ -90,8 +102,8 @@ Proof.
   destruct x as [[[buyer staking] energy] mig]. unfold add_one_v1. intros E HG.
   apply bind_ok in E. destruct E as (u1 & _ & E). apply bind_ok in E. destruct E as (u2 & _ & E).
   apply bind_ok in E. destruct E as (s1 & Hc & E).
-  destruct (try_create_only _ _ _ _ Hc) as (Hnone & Hao & (fl & Hrg) & Hg1 & Hu1).
-  destruct HG as (Htg & Hnd & Hr).
+  destruct (try_create_only _ _ _ _ Hc) as (Hnone & Hao & (fl & Hrg) & Hg1 & Hu1 & Hbl1).
+  pose proof HG as (Htg & Hnd & Hr & _ & _).
   assert (Hni : ~ In buyer (gt_users s)) by (intros Hi; apply (Hr _ Hi); exact Hnone).
   apply bind_ok in E. destruct E as ([[[s2 tw2] tg2] us2] & H1 & E).
   apply bind_ok in E. destruct E as ([[[s3 tw3] tg3] us3] & H2 & E).
@@ -101,37 +113,45 @@ Proof.
     apply bind_ok in H2. destruct H2 as (u6 & _ & H2). inversion H2; subst s3 tw3 tg3 us3; clear H2.
     split.
     + replace (tg + STAKING_GUARANTEED_TICKETS_NO + MIGRATION_GUARANTEED_TICKETS_NO) with (tg + (if true then 1 + 1 else 0)) by (unfold STAKING_GUARANTEED_TICKETS_NO, MIGRATION_GUARANTEED_TICKETS_NO; cbv iota; lia).
-      eapply (GRes_add false s tg buyer fl {| us_a := staking; us_b := energy; us_sg := 1; us_mg := 1; us_infos := [] |} true); [repeat split; assumption|exact Hnone| | |]; cbn.
+      eapply (GRes_add false s tg buyer fl {| us_a := staking; us_b := energy; us_sg := 1; us_mg := 1; us_infos := [] |} true); [exact HG|exact Hnone| | | | |]; cbn.
       * exact Hrg.
       * rewrite Hu1. reflexivity.
       * rewrite Hg1. rewrite (set_insert_new buyer (gt_users s) Hni).
         apply set_insert_old. apply in_or_app. right. left. reflexivity.
+      * exact Hbl1.
+      * intros Hx; try discriminate Hx; reflexivity.
     + eapply alloc_only_trans; [exact Hao|]. exact (alloc_only_gu _ _ _).
   - apply bind_ok in H1. destruct H1 as (u5 & _ & H1). inversion H1; subst s2 tw2 tg2 us2; clear H1.
     inversion H2; subst s3 tw3 tg3 us3; clear H2.
     split.
     + replace (tg + STAKING_GUARANTEED_TICKETS_NO) with (tg + (if true then 1 + 0 else 0)) by (unfold STAKING_GUARANTEED_TICKETS_NO, MIGRATION_GUARANTEED_TICKETS_NO; cbv iota; lia).
-      eapply (GRes_add false s tg buyer fl {| us_a := staking; us_b := energy; us_sg := 1; us_mg := 0; us_infos := [] |} true); [repeat split; assumption|exact Hnone| | |]; cbn.
+      eapply (GRes_add false s tg buyer fl {| us_a := staking; us_b := energy; us_sg := 1; us_mg := 0; us_infos := [] |} true); [exact HG|exact Hnone| | | | |]; cbn.
       * exact Hrg.
       * rewrite Hu1. reflexivity.
       * rewrite Hg1. apply set_insert_new. exact Hni.
+      * exact Hbl1.
+      * intros Hx; try discriminate Hx; reflexivity.
     + eapply alloc_only_trans; [exact Hao|]. exact (alloc_only_gu _ _ _).
   - inversion H1; subst s2 tw2 tg2 us2; clear H1.
     apply bind_ok in H2. destruct H2 as (u6 & _ & H2). inversion H2; subst s3 tw3 tg3 us3; clear H2.
     split.
     + replace (tg + MIGRATION_GUARANTEED_TICKETS_NO) with (tg + (if true then 0 + 1 else 0)) by (unfold STAKING_GUARANTEED_TICKETS_NO, MIGRATION_GUARANTEED_TICKETS_NO; cbv iota; lia).
-      eapply (GRes_add false s tg buyer fl {| us_a := staking; us_b := energy; us_sg := 0; us_mg := 1; us_infos := [] |} true); [repeat split; assumption|exact Hnone| | |]; cbn.
+      eapply (GRes_add false s tg buyer fl {| us_a := staking; us_b := energy; us_sg := 0; us_mg := 1; us_infos := [] |} true); [exact HG|exact Hnone| | | | |]; cbn.
       * exact Hrg.
       * rewrite Hu1. reflexivity.
       * rewrite Hg1. apply set_insert_new. exact Hni.
+      * exact Hbl1.
+      * intros Hx; try discriminate Hx; reflexivity.
     + eapply alloc_only_trans; [exact Hao|]. exact (alloc_only_gu _ _ _).
   - inversion H1; subst s2 tw2 tg2 us2; clear H1. inversion H2; subst s3 tw3 tg3 us3; clear H2.
     split.
     + replace tg with (tg + (if false then 0 else 0)) by lia.
-      eapply (GRes_add false s tg buyer fl {| us_a := staking; us_b := energy; us_sg := 0; us_mg := 0; us_infos := [] |} false); [repeat split; assumption|exact Hnone| | |]; cbn.
+      eapply (GRes_add false s tg buyer fl {| us_a := staking; us_b := energy; us_sg := 0; us_mg := 0; us_infos := [] |} false); [exact HG|exact Hnone| | | | |]; cbn.
       * exact Hrg.
       * rewrite Hu1. reflexivity.
       * exact Hg1.
+      * exact Hbl1.
+      * intros Hx; try discriminate Hx; reflexivity.
     + eapply alloc_only_trans; [exact Hao|]. exact (alloc_only_u _ _).
 Qed.
 
@@ -156,26 +176,30 @@ Proof.
   apply bind_ok in E. destruct E as (u1 & _ & E). apply bind_ok in E. destruct E as (u2 & _ & E).
   apply bind_ok in E. destruct E as (u3 & _ & E).
   apply bind_ok in E. destruct E as (s1 & Hc & E).
-  destruct (try_create_only _ _ _ _ Hc) as (Hnone & Hao & (fl & Hrg) & Hg1 & Hu1).
+  destruct (try_create_only _ _ _ _ Hc) as (Hnone & Hao & (fl & Hrg) & Hg1 & Hu1 & Hbl1).
   apply bind_ok in E. destruct E as (u4 & _ & E).
-  destruct HG as (Htg & Hnd & Hr).
+  pose proof HG as (Htg & Hnd & Hr & _ & _).
   assert (Hni : ~ In buyer (gt_users s)) by (intros Hi; apply (Hr _ Hi); exact Hnone).
   destruct (0 <? infos_sum infos) eqn:Hpos.
   - apply bind_ok in E. destruct E as (u5 & _ & E). inversion E; subst s' tw' tg' uc' ta' ga'; clear E.
     split.
     + replace (tg + infos_sum infos) with (tg + (if true then sumN (map fst infos) else 0)) by reflexivity.
-      eapply (GRes_add true s tg buyer fl {| us_a := allowance; us_b := 0; us_sg := 0; us_mg := 0; us_infos := infos |} true); [repeat split; assumption|exact Hnone| | |]; cbn.
+      eapply (GRes_add true s tg buyer fl {| us_a := allowance; us_b := 0; us_sg := 0; us_mg := 0; us_infos := infos |} true); [exact HG|exact Hnone| | | | |]; cbn.
       * exact Hrg.
       * rewrite Hu1. reflexivity.
       * rewrite Hg1. apply set_insert_new. exact Hni.
+      * exact Hbl1.
+      * intros Hx; try discriminate Hx; reflexivity.
     + eapply alloc_only_trans; [exact Hao|]. exact (alloc_only_gu _ _ _).
   - inversion E; subst s' tw' tg' uc' ta' ga'; clear E.
     split.
     + replace tg with (tg + (if false then 0 else 0)) by lia.
-      eapply (GRes_add true s tg buyer fl {| us_a := allowance; us_b := 0; us_sg := 0; us_mg := 0; us_infos := [] |} false); [repeat split; assumption|exact Hnone| | |]; cbn.
+      eapply (GRes_add true s tg buyer fl {| us_a := allowance; us_b := 0; us_sg := 0; us_mg := 0; us_infos := [] |} false); [exact HG|exact Hnone| | | | |]; cbn.
       * exact Hrg.
       * rewrite Hu1. reflexivity.
       * exact Hg1.
+      * exact Hbl1.
+      * intros Hx; try discriminate Hx; reflexivity.
     + eapply alloc_only_trans; [exact Hao|]. exact (alloc_only_u _ _).
 Qed.
 
@@ -189,6 +213,225 @@ Proof.
     apply bind_ok in E. destruct E as ([[[[[s1 tw1] tg1] uc1] ta1] ga1] & H1 & E).
     destruct (add_one_v2_GRes _ _ _ _ _ _ _ _ _ _ _ _ _ H1 HG) as [HG1 Ha1].
     destruct (IH _ _ _ _ _ _ _ _ _ _ _ _ E HG1) as [HG2 Ha2]. split; [exact HG2|eapply alloc_only_trans; eauto].
+Qed.
+
+(** ** blacklisting / un-blacklisting: the reservation counter follows the holders' list *)
+Definition GW (v2 : bool) (s : state) (tg : N) : Prop :=
+  tg = total_reserved v2 s /\ NoDup (gt_users s) /\ (forall u, In u (gt_users s) -> range s u <> None) /\
+  (forall u, ~ In u (gt_users s) -> reserved v2 s u = 0).
+
+Lemma GRes_GW v2 s tg : GRes v2 s tg -> GW v2 s tg.
+Proof. intros (A & B & C & D & _). repeat split; assumption. Qed.
+
+Lemma reserved_ext v2 s s' u : uts s' u = uts s u -> reserved v2 s' u = reserved v2 s u.
+Proof. intros E. unfold reserved. rewrite E. reflexivity. Qed.
+
+Lemma reserved_v1_get s u : reserved false s u = us_sg (us_get (uts s u)) + us_mg (us_get (uts s u)).
+Proof. unfold reserved, us_get. destruct (uts s u); reflexivity. Qed.
+Lemma reserved_v2_get s u : reserved true s u = infos_sum (us_infos (us_get (uts s u))).
+Proof. unfold reserved, us_get, infos_sum. destruct (uts s u); reflexivity. Qed.
+
+(** a holder leaves *)
+Lemma GW_remove v2 s tg u s' :
+  GW v2 s tg -> In u (gt_users s) ->
+  gt_users s' = swap_remove u (gt_users s) -> uts s' = upd (uts s) u None -> range s' = range s ->
+  reserved v2 s u <= tg /\ GW v2 s' (tg - reserved v2 s u).
+Proof.
+  intros (Htg & Hnd & Hr & Hz) Hin Hg Hu Hrg.
+  destruct (swap_remove_facts u (gt_users s) Hnd Hin) as (Hnd1 & Hnot & Hiff & _).
+  pose proof (sumN_map_perm (reserved v2 s) _ _ (swap_remove_perm u (gt_users s) Hnd Hin)) as Hsum.
+  cbn [map] in Hsum. rewrite sumN_cons in Hsum.
+  assert (Hsame : sumN (map (reserved v2 s') (swap_remove u (gt_users s))) = sumN (map (reserved v2 s) (swap_remove u (gt_users s)))).
+  { apply sumN_map_ext. intros x Hx. apply reserved_ext. rewrite Hu. apply upd_other. intros ->. contradiction. }
+  unfold total_reserved in Htg. split; [lia|].
+  split; [|split; [|split]].
+  - unfold total_reserved. rewrite Hg, Hsame. lia.
+  - rewrite Hg. exact Hnd1.
+  - intros x Hx. rewrite Hrg. apply Hr. rewrite Hg in Hx. apply Hiff in Hx. tauto.
+  - intros x Hx. destruct (N.eq_dec x u) as [->|Hne].
+    + unfold reserved. rewrite Hu, upd_same. reflexivity.
+    + rewrite (reserved_ext v2 s s' x) by (rewrite Hu; apply upd_other; exact Hne).
+      apply Hz. intros Hi. apply Hx. rewrite Hg. apply Hiff. tauto.
+Qed.
+
+(** a non-holder's record is wiped *)
+Lemma GW_wipe v2 s tg u s' :
+  GW v2 s tg -> ~ In u (gt_users s) ->
+  gt_users s' = gt_users s -> uts s' = upd (uts s) u None -> range s' = range s ->
+  GW v2 s' tg.
+Proof.
+  intros (Htg & Hnd & Hr & Hz) Hni Hg Hu Hrg.
+  split; [|split; [|split]].
+  - unfold total_reserved in *. rewrite Hg, Htg. symmetry. apply sumN_map_ext. intros x Hx. apply reserved_ext.
+    rewrite Hu. apply upd_other. intros ->. contradiction.
+  - rewrite Hg. exact Hnd.
+  - intros x Hx. rewrite Hrg. apply Hr. rewrite <- Hg. exact Hx.
+  - intros x Hx. rewrite Hg in Hx. destruct (N.eq_dec x u) as [->|Hne].
+    + unfold reserved. rewrite Hu, upd_same. reflexivity.
+    + rewrite (reserved_ext v2 s s' x) by (rewrite Hu; apply upd_other; exact Hne). apply Hz. exact Hx.
+Qed.
+
+(** somebody with tickets who is not a holder gets the record [us]; a holder iff [ins] *)
+Lemma GW_readd v2 s tg u us (ins : bool) s' :
+  GW v2 s tg -> ~ In u (gt_users s) -> range s u <> None ->
+  gt_users s' = (if ins then gt_users s ++ [u] else gt_users s) -> uts s' = upd (uts s) u (Some us) -> range s' = range s ->
+  let r := if v2 then sumN (map fst (us_infos us)) else us_sg us + us_mg us in
+  (ins = false -> r = 0) ->
+  GW v2 s' (tg + (if ins then r else 0)).
+Proof.
+  intros (Htg & Hnd & Hr & Hz) Hni Hru Hg Hu Hrg r Hr0.
+  assert (Hother : forall x, In x (gt_users s) -> uts s' x = uts s x).
+  { intros x Hx. rewrite Hu. apply upd_other. intros ->. contradiction. }
+  split; [|split; [|split]].
+  - unfold total_reserved. rewrite Hg. destruct ins.
+    + rewrite map_app, sumN_app. cbn [map]. rewrite sumN_cons, sumN_nil.
+      rewrite (sum_reserved_other v2 s s' _ Hother). unfold reserved at 2. rewrite Hu, upd_same.
+      fold r. unfold total_reserved in Htg. lia.
+    + rewrite (sum_reserved_other v2 s s' _ Hother). unfold total_reserved in Htg. lia.
+  - rewrite Hg. destruct ins; [|exact Hnd]. apply NoDup_snoc; assumption.
+  - intros x Hx. rewrite Hrg. rewrite Hg in Hx. destruct ins; [|apply Hr; exact Hx].
+    apply in_app_or in Hx. destruct Hx as [Hx|[<-|[]]]; [apply Hr; exact Hx|exact Hru].
+  - intros x Hx. unfold reserved. rewrite Hu. unfold upd. destruct (N.eqb_spec x u) as [->|Hne].
+    + fold r. destruct ins; [|apply Hr0; reflexivity]. exfalso. apply Hx. rewrite Hg. apply in_or_app. right. left. reflexivity.
+    + apply Hz. intros Hi. apply Hx. rewrite Hg. destruct ins; [apply in_or_app; left|]; exact Hi.
+Qed.
+
+Lemma swap_remove_absent x l : ~ In x l -> swap_remove x l = l.
+Proof. intros Hn. unfold swap_remove. destruct (mem x l) eqn:Em; [apply mem_In' in Em; contradiction|reflexivity]. Qed.
+Lemma swap_remove_sub x l y : NoDup l -> In y (swap_remove x l) -> In y l.
+Proof.
+  intros Hnd Hy. destruct (in_dec N.eq_dec x l) as [Hi|Hn].
+  - apply (swap_remove_facts x l Hnd Hi) in Hy. tauto.
+  - rewrite (swap_remove_absent x l Hn) in Hy. exact Hy.
+Qed.
+
+Lemma clear_gt_loop_v1_GW : forall l s rm tg s' rm' tg',
+  clear_gt_loop_v1 (s, rm, tg) l = Ok (s', rm', tg') -> GW false s tg ->
+  GW false s' tg' /\ range s' = range s /\ blacklisted s' = blacklisted s /\
+  (forall x, In x (gt_users s') -> In x (gt_users s)) /\ (forall x, In x l -> ~ In x (gt_users s')).
+Proof.
+  induction l as [|u l IH]; intros s rm tg s' rm' tg' E HG; cbn [clear_gt_loop_v1] in E.
+  - inversion E; subst. split; [exact HG|]. split; [reflexivity|]. split; [reflexivity|]. split; [auto|intros x []].
+  - destruct (mem u (gt_users s)) eqn:Em.
+    + apply mem_In' in Em.
+      apply bind_ok in E. destruct E as (tg1 & H1 & E). apply usub_ok in H1. destruct H1 as [_ ->].
+      apply bind_ok in E. destruct E as (tg2 & H2 & E). apply usub_ok in H2. destruct H2 as [_ ->].
+      match type of E with clear_gt_loop_v1 (?sx, _, _) l = _ => set (s1 := sx) in * end.
+      destruct (GW_remove false s tg u s1 HG Em eq_refl eq_refl eq_refl) as [Hle HG1].
+      rewrite reserved_v1_get in HG1.
+      replace (tg - us_sg (us_get (uts s u)) - us_mg (us_get (uts s u))) with (tg - (us_sg (us_get (uts s u)) + us_mg (us_get (uts s u)))) in E by lia.
+      destruct (IH _ _ _ _ _ _ E HG1) as (HG' & Hrg & Hbl & Hsub & Hout).
+      destruct HG as (_ & Hnd & _).
+      split; [exact HG'|]. split; [exact Hrg|]. split; [exact Hbl|]. split.
+      * intros x Hx. apply Hsub in Hx. eapply swap_remove_sub; [exact Hnd|exact Hx].
+      * intros x [<-|Hx]; [|apply Hout; exact Hx]. intros Hi. apply Hsub in Hi.
+        apply (swap_remove_facts u (gt_users s) Hnd Em) in Hi. tauto.
+    + destruct (IH _ _ _ _ _ _ E HG) as (HG' & Hrg & Hbl & Hsub & Hout).
+      split; [exact HG'|]. split; [exact Hrg|]. split; [exact Hbl|]. split; [exact Hsub|].
+      intros x [<-|Hx]; [|apply Hout; exact Hx]. intros Hi. apply Hsub in Hi.
+      apply mem_In' in Hi. congruence.
+Qed.
+
+Lemma clear_gt_loop_v2_GW : forall l s nw tg s' nw' tg',
+  clear_gt_loop_v2 (s, nw, tg) l = Ok (s', nw', tg') -> GW true s tg ->
+  GW true s' tg' /\ range s' = range s /\ blacklisted s' = blacklisted s /\
+  (forall x, In x (gt_users s') -> In x (gt_users s)) /\ (forall x, In x l -> ~ In x (gt_users s')).
+Proof.
+  induction l as [|u l IH]; intros s nw tg s' nw' tg' E HG; cbn [clear_gt_loop_v2] in E.
+  - inversion E; subst. split; [exact HG|]. split; [reflexivity|]. split; [reflexivity|]. split; [auto|intros x []].
+  - apply bind_ok in E. destruct E as (tg1 & H1 & E). apply usub_ok in H1. destruct H1 as [_ ->].
+    match type of E with clear_gt_loop_v2 (?sx, _, _) l = _ => set (s1 := sx) in * end.
+    rewrite <- reserved_v2_get in E.
+    pose proof HG as (_ & Hnd & _ & Hz).
+    destruct (in_dec N.eq_dec u (gt_users s)) as [Em|Hn].
+    + destruct (GW_remove true s tg u s1 HG Em eq_refl eq_refl eq_refl) as [Hle HG1].
+      destruct (IH _ _ _ _ _ _ E HG1) as (HG' & Hrg & Hbl & Hsub & Hout).
+      split; [exact HG'|]. split; [exact Hrg|]. split; [exact Hbl|]. split.
+      * intros x Hx. apply Hsub in Hx. eapply swap_remove_sub; [exact Hnd|exact Hx].
+      * intros x [<-|Hx]; [|apply Hout; exact Hx]. intros Hi. apply Hsub in Hi.
+        apply (swap_remove_facts u (gt_users s) Hnd Em) in Hi. tauto.
+    + assert (HG1 : GW true s1 (tg - reserved true s u)).
+      { rewrite (Hz u Hn), N.sub_0_r. apply (GW_wipe true s tg u s1 HG Hn); try reflexivity.
+        unfold s1. cbn. apply swap_remove_absent. exact Hn. }
+      destruct (IH _ _ _ _ _ _ E HG1) as (HG' & Hrg & Hbl & Hsub & Hout).
+      assert (Hg1 : gt_users s1 = gt_users s) by (unfold s1; cbn; apply swap_remove_absent; exact Hn).
+      split; [exact HG'|]. split; [exact Hrg|]. split; [exact Hbl|]. split.
+      * intros x Hx. apply Hsub in Hx. rewrite Hg1 in Hx. exact Hx.
+      * intros x [<-|Hx]; [|apply Hout; exact Hx]. intros Hi. apply Hsub in Hi. rewrite Hg1 in Hi. contradiction.
+Qed.
+
+Lemma unbl_gt_loop_v1_GW : forall l s nw tg s' nw' tg',
+  unbl_gt_loop_v1 (s, nw, tg) l = Ok (s', nw', tg') -> GW false s tg ->
+  GW false s' tg' /\ range s' = range s /\ blacklisted s' = blacklisted s /\
+  (forall x, In x (gt_users s') -> In x (gt_users s) \/ In x l).
+Proof.
+  induction l as [|u l IH]; intros s nw tg s' nw' tg' E HG; cbn [unbl_gt_loop_v1] in E.
+  - inversion E; subst. split; [exact HG|]. split; [reflexivity|]. split; [reflexivity|]. intros x Hx; left; exact Hx.
+  - destruct (match uts s u with Some _ => true | None => false end || match range s u with None => true | Some _ => false end) eqn:Hskip.
+    { destruct (IH _ _ _ _ _ _ E HG) as (HG' & Hrg & Hbl & Hsub).
+      split; [exact HG'|]. split; [exact Hrg|]. split; [exact Hbl|].
+      intros x Hx. destruct (Hsub x Hx); [left|right; right]; assumption. }
+    destruct (mem u (gt_users s)) eqn:Em.
+    { destruct (IH _ _ _ _ _ _ E HG) as (HG' & Hrg & Hbl & Hsub).
+      split; [exact HG'|]. split; [exact Hrg|]. split; [exact Hbl|].
+      intros x Hx. destruct (Hsub x Hx); [left|right; right]; assumption. }
+    apply orb_false_iff in Hskip. destruct Hskip as [_ Hrange].
+    assert (Hru : range s u <> None) by (destruct (range s u); [discriminate|discriminate]).
+    assert (Hni : ~ In u (gt_users s)) by (intros Hi; apply mem_In' in Hi; congruence).
+    apply bind_ok in E. destruct E as (u1 & _ & E).
+    apply bind_ok in E. destruct E as (nw1 & _ & E). apply bind_ok in E. destruct E as (nw2 & _ & E).
+    match type of E with unbl_gt_loop_v1 (?sx, _, _) l = _ => set (s1 := sx) in * end.
+    set (us := us_get (bl_uts s u)) in *.
+    assert (HG1 : GW false s1 (tg + us_sg us + us_mg us)).
+    { replace (tg + us_sg us + us_mg us) with (tg + (if true then us_sg us + us_mg us else 0)) by (cbv iota; lia).
+      apply (GW_readd false s tg u us true s1 HG Hni Hru); try reflexivity. intros Hx; discriminate Hx. }
+    destruct (IH _ _ _ _ _ _ E HG1) as (HG' & Hrg & Hbl & Hsub).
+    split; [exact HG'|]. split; [exact Hrg|]. split; [exact Hbl|].
+    intros x Hx. destruct (Hsub x Hx) as [Hi|Hi]; [|right; right; exact Hi].
+    unfold s1 in Hi. cbn in Hi. apply in_app_or in Hi. destruct Hi as [Hi|[<-|[]]]; [left; exact Hi|right; left; reflexivity].
+Qed.
+
+Lemma unbl_gt_loop_v2_GW : forall l s nw tg s' nw' tg',
+  unbl_gt_loop_v2 (s, nw, tg) l = Ok (s', nw', tg') -> GW true s tg ->
+  NoDup l -> (forall x, In x l -> ~ In x (gt_users s)) ->
+  GW true s' tg' /\ range s' = range s /\ blacklisted s' = blacklisted s /\
+  (forall x, In x (gt_users s') -> In x (gt_users s) \/ In x l).
+Proof.
+  induction l as [|u l IH]; intros s nw tg s' nw' tg' E HG Hndl Hout; cbn [unbl_gt_loop_v2] in E.
+  - inversion E; subst. split; [exact HG|]. split; [reflexivity|]. split; [reflexivity|]. intros x Hx; left; exact Hx.
+  - inversion Hndl as [|? ? Hul Hndl']; subst.
+    assert (Hni : ~ In u (gt_users s)) by (apply Hout; left; reflexivity).
+    destruct (range s u) as [fl|] eqn:Hrange.
+    2:{ destruct (IH _ _ _ _ _ _ E HG Hndl' (fun x Hx => Hout x (or_intror Hx))) as (HG' & Hrg & Hbl & Hsub).
+        split; [exact HG'|]. split; [exact Hrg|]. split; [exact Hbl|].
+        intros x Hx. destruct (Hsub x Hx); [left|right; right]; assumption. }
+    assert (Hru : range s u <> None) by (rewrite Hrange; discriminate).
+    apply bind_ok in E. destruct E as ([[s1 nw1] tg1] & H1 & E).
+    set (us := us_get (bl_uts s u)) in *.
+    destruct (N.ltb_spec 0 (infos_sum (us_infos us))) as [Hpos|Hzero].
+    + apply bind_ok in H1. destruct H1 as (u1 & _ & H1). inversion H1; subst s1 nw1 tg1; clear H1.
+      match type of E with unbl_gt_loop_v2 (?sx, _, _) l = _ => set (s2 := sx) in * end.
+      assert (HG1 : GW true s2 (tg + infos_sum (us_infos us))).
+      { replace (tg + infos_sum (us_infos us)) with (tg + (if true then sumN (map fst (us_infos us)) else 0)) by reflexivity.
+        apply (GW_readd true s tg u us true s2 HG Hni Hru); try reflexivity.
+        - unfold s2. cbn. apply set_insert_new. exact Hni.
+        - intros Hx; discriminate Hx. }
+      assert (Hg2 : gt_users s2 = gt_users s ++ [u]) by (unfold s2; cbn; apply set_insert_new; exact Hni).
+      destruct (IH _ _ _ _ _ _ E HG1 Hndl') as (HG' & Hrg & Hbl & Hsub).
+      { intros x Hx Hi. rewrite Hg2 in Hi. apply in_app_or in Hi. destruct Hi as [Hi|[<-|[]]]; [apply (Hout x (or_intror Hx)); exact Hi|contradiction]. }
+      split; [exact HG'|]. split; [exact Hrg|]. split; [exact Hbl|].
+      intros x Hx. destruct (Hsub x Hx) as [Hi|Hi]; [|right; right; exact Hi].
+      rewrite Hg2 in Hi. apply in_app_or in Hi. destruct Hi as [Hi|[<-|[]]]; [left; exact Hi|right; left; reflexivity].
+    + inversion H1; subst s1 nw1 tg1; clear H1.
+      match type of E with unbl_gt_loop_v2 (?sx, _, _) l = _ => set (s2 := sx) in * end.
+      assert (HG1 : GW true s2 tg).
+      { replace tg with (tg + (if false then sumN (map fst (us_infos us)) else 0)) by (cbv iota; lia).
+        apply (GW_readd true s tg u us false s2 HG Hni Hru); try reflexivity.
+        intros _. unfold infos_sum in Hzero. lia. }
+      destruct (IH _ _ _ _ _ _ E HG1 Hndl') as (HG' & Hrg & Hbl & Hsub).
+      { intros x Hx. apply (Hout x (or_intror Hx)). }
+      split; [exact HG'|]. split; [exact Hrg|]. split; [exact Hbl|].
+      intros x Hx. destruct (Hsub x Hx) as [Hi|Hi]; [left; exact Hi|right; right; exact Hi].
 Qed.
 
 (** ** the launchpad-token invariant of the set-up history *)
@@ -212,14 +455,15 @@ Lemma LpInv_frame v2 w w' :
   total_deposited (st w') = total_deposited (st w) -> deposited (st w') = deposited (st w) ->
   nr_winning (st w') = nr_winning (st w) -> sched1 (st w') = sched1 (st w) -> sched2 (st w') = sched2 (st w) ->
   (tpt (st w') = tpt (st w) \/ deposited (st w) = false) ->
+  blacklisted (st w') = blacklisted (st w) ->
   bal w' sc_addr (lp_token (st w)) 0 = bal w sc_addr (lp_token (st w)) 0 ->
   LpInv v2 w'.
 Proof.
-  intros [Htc Hcb (Hres & Hnd & Hr) Hbal Hdep Hsch Htok] E1 E2 E3 E4 E5 E6 E7 E8 E9 E10 E11 E12 E13 Etpt Eb.
+  intros [Htc Hcb (Hres & Hnd & Hr & Hz & Hbl) Hbal Hdep Hsch Htok] E1 E2 E3 E4 E5 E6 E7 E8 E9 E10 E11 E12 E13 Etpt Ebl Eb.
   constructor.
   - intros a. rewrite E1. apply Htc.
   - intros a. rewrite E2. apply Hcb.
-  - unfold GRes, total_reserved, reserved. rewrite E3, E4, E5, E6. repeat split; assumption.
+  - unfold GRes, total_reserved, reserved in *. rewrite E3, E4, E5, E6, Ebl. repeat split; try assumption; apply Hbl; assumption.
   - rewrite E7, E9, Eb. exact Hbal.
   - rewrite E10, E9. unfold reserve_total. rewrite E11, E3.
     destruct (deposited (st w)) eqn:Hd; [|exact Hdep].
@@ -230,8 +474,9 @@ Qed.
 
 Lemma LpInv_ext v2 w w' : st w' = st w -> bal w' = bal w -> LpInv v2 w -> LpInv v2 w'.
 Proof.
-  intros Hs Hb Hi. eapply LpInv_frame; [exact Hi|rewrite Hs; reflexivity..| |rewrite Hb; reflexivity].
-  left. rewrite Hs. reflexivity.
+  intros Hs Hb Hi. eapply LpInv_frame; [exact Hi|rewrite Hs; reflexivity..| | |rewrite Hb; reflexivity].
+  - left. rewrite Hs. reflexivity.
+  - rewrite Hs. reflexivity.
 Qed.
 
 (** allocation *)
@@ -240,11 +485,11 @@ Lemma LpInv_alloc v2 w s' tw tg :
   tw + tg = reserve_total (st w) ->
   LpInv v2 (set_st w (s' <| total_guaranteed := tg |> <| nr_winning := tw |>)).
 Proof.
-  intros [Htc Hcb _ Hbal Hdep Hsch Htok] (r & b & la & g & u & ->) (Hres & Hnd & Hr) Hcons.
+  intros [Htc Hcb _ Hbal Hdep Hsch Htok] (r & b & la & g & u & ->) (Hres & Hnd & Hr & Hz & Hbl) Hcons.
   constructor; rewrite ?st_set_st, ?bal_set_st; cbn.
   - exact Htc.
   - exact Hcb.
-  - unfold GRes, total_reserved, reserved in *. cbn in *. repeat split; assumption.
+  - unfold GRes, total_reserved, reserved in *. cbn in *. repeat split; try assumption; apply Hbl; assumption.
   - exact Hbal.
   - unfold reserve_total in *. cbn. destruct (deposited (st w)); [|exact Hdep]. rewrite Hcons. exact Hdep.
   - eapply sched_inv_ext; [| | | |exact Hsch]; reflexivity.
@@ -279,6 +524,178 @@ Qed.
 
 Definition vflag (v : variant) : bool := match v with Gt2 => true | _ => false end.
 
+(** ** blacklisting / refunding / un-blacklisting keep the invariant *)
+Lemma blacklist_loop_facts e : forall la w w1, blacklist_loop e w la = Ok w1 ->
+  (exists c bl, st w1 = st w <| confirmed := c |> <| blacklisted := bl |>) /\
+  (forall x, blacklisted (st w1) x = true <-> blacklisted (st w) x = true \/ In x la) /\
+  (forall x, In x la -> range (st w) x <> None).
+Proof.
+  induction la as [|a la IH]; intros w w1 E.
+  - cbn in E. inversion E; subst. split; [exists (confirmed (st w1)), (blacklisted (st w1)); destruct (st w1); reflexivity|].
+    split; [intros x; cbn [In]; tauto|intros x []].
+  - rewrite blacklist_loop_cons in E. apply bind_ok in E. destruct E as (w0 & H1 & E).
+    destruct (IH _ _ E) as ((c & bl & Hs) & Hb & Hr).
+    destruct (bl_one_only _ _ _ _ H1) as (c0 & bl0 & Hs0).
+    apply bl_one_spec in H1. cbn zeta in H1. destruct H1 as (_ & Hra & Hba & _ & Hoth & Hrg & _).
+    split; [exists c, bl; rewrite Hs, Hs0; reflexivity|]. split.
+    + intros x. rewrite Hb. destruct (N.eq_dec x a) as [->|Hne].
+      * rewrite Hba. split; [intros _; right; left; reflexivity|intros _; left; reflexivity].
+      * destruct (Hoth x Hne) as [_ Hbx]. rewrite Hbx. cbn [In]. split; [intros [Hx|Hx]; auto|intros [Hx|[Hx|Hx]]; auto; congruence].
+    + intros x [<-|Hx]; [exact Hra|]. rewrite <- Hrg. apply Hr. exact Hx.
+Qed.
+
+Lemma unblacklist_loop_facts : forall l s s', unblacklist_loop s l = Ok s' ->
+  NoDup l /\ (forall x, In x l -> blacklisted s x = true) /\
+  (forall x, blacklisted s' x = true -> blacklisted s x = true /\ ~ In x l).
+Proof.
+  induction l as [|a l IH]; intros s s' E; cbn [unblacklist_loop] in E.
+  - inversion E; subst. split; [constructor|]. split; [intros x []|intros x Hx; split; [exact Hx|intros []]].
+  - apply bind_ok in E. destruct E as (u & Hq & E). apply require_ok' in Hq.
+    destruct (IH _ _ E) as (Hnd & Hall & Hback). cbn in Hall, Hback.
+    assert (Hal : ~ In a l).
+    { intros Hi. specialize (Hall a Hi). rewrite upd_same in Hall. discriminate. }
+    split; [constructor; assumption|]. split.
+    + intros x [<-|Hx]; [exact Hq|]. specialize (Hall x Hx). unfold upd in Hall. destruct (x =? a); [discriminate|exact Hall].
+    + intros x Hx. destruct (Hback x Hx) as [Hb Hn]. unfold upd in Hb. destruct (N.eqb_spec x a) as [->|Hne]; [discriminate|].
+      split; [exact Hb|]. intros [Hi|Hi]; [congruence|contradiction].
+Qed.
+
+Definition bl_only (s s' : state) : Prop :=
+  exists c bl g u b nw tg, s' = s <| confirmed := c |> <| blacklisted := bl |> <| gt_users := g |> <| uts := u |>
+                                  <| bl_uts := b |> <| nr_winning := nw |> <| total_guaranteed := tg |>.
+
+Lemma LpInv_rebuild v2 w w' :
+  LpInv v2 w -> bl_only (st w) (st w') ->
+  reserve_total (st w') = reserve_total (st w) -> GRes v2 (st w') (total_guaranteed (st w')) ->
+  bal w' sc_addr (lp_token (st w)) 0 = bal w sc_addr (lp_token (st w)) 0 -> LpInv v2 w'.
+Proof.
+  intros [Htc Hcb _ Hbal Hdep Hsch Htok] (c & bl & g & u & b & nw & tg & Hs) Hrt HG Hb.
+  constructor.
+  - intros a. rewrite Hs. cbn. apply Htc.
+  - intros a. rewrite Hs. cbn. apply Hcb.
+  - exact HG.
+  - replace (lp_token (st w')) with (lp_token (st w)) by (rewrite Hs; reflexivity).
+    replace (total_deposited (st w')) with (total_deposited (st w)) by (rewrite Hs; reflexivity). rewrite Hb. exact Hbal.
+  - rewrite Hrt. replace (deposited (st w')) with (deposited (st w)) by (rewrite Hs; reflexivity).
+    replace (total_deposited (st w')) with (total_deposited (st w)) by (rewrite Hs; reflexivity).
+    replace (tpt (st w')) with (tpt (st w)) by (rewrite Hs; reflexivity). exact Hdep.
+  - eapply sched_inv_ext; [| | | |exact Hsch]; rewrite Hs; reflexivity.
+  - replace (lp_token (st w')) with (lp_token (st w)) by (rewrite Hs; reflexivity).
+    replace (pay_token (st w')) with (pay_token (st w)) by (rewrite Hs; reflexivity). exact Htok.
+Qed.
+
+Lemma GW_fields v2 s s' tg :
+  gt_users s' = gt_users s -> uts s' = uts s -> range s' = range s -> GW v2 s tg -> GW v2 s' tg.
+Proof. intros E1 E2 E3. unfold GW, total_reserved, reserved. rewrite E1, E2, E3. auto. Qed.
+
+Theorem LpInv_blacklist v we e w la w' :
+  guar v -> LpInv (vflag v) w -> blacklist_endpoint v we e w la = Ok w' -> LpInv (vflag v) w'.
+Proof.
+  intros Hv Hi E. unfold blacklist_endpoint in E.
+  apply bind_ok in E. destruct E as (w1 & H1 & E).
+  pose proof (blacklist_common_keeps_reserve _ _ _ _ H1) as Hrt1.
+  unfold add_users_to_blacklist in H1. apply bind_ok in H1. destruct H1 as (u1 & _ & H1). apply bind_ok in H1. destruct H1 as (u2 & _ & H1).
+  destruct (blacklist_loop_facts e la w w1 H1) as ((c & bl & Hs1) & Hblk & Hrange).
+  destruct (blacklist_loop_lpside e la w w1 H1 (lp_tok _ _ Hi)) as [_ Hb1].
+  pose proof (lp_res _ _ Hi) as HG. pose proof HG as (_ & _ & _ & _ & Hcl5).
+  assert (HG1 : GW (vflag v) (st w1) (total_guaranteed (st w1))).
+  { replace (total_guaranteed (st w1)) with (total_guaranteed (st w)) by (rewrite Hs1; reflexivity).
+    apply (GW_fields _ (st w)); try (rewrite Hs1; reflexivity). apply GRes_GW. exact HG. }
+  apply bind_ok in E. destruct E as (w2 & H2 & E).
+  assert (H2' : bl_only (st w) (st w2) /\ reserve_total (st w2) = reserve_total (st w) /\
+                GRes (vflag v) (st w2) (total_guaranteed (st w2)) /\ bal w2 = bal w1).
+  { assert (Hfin : forall s1 tg, gt_only (st w1) s1 -> GW (vflag v) s1 tg -> range s1 = range (st w1) ->
+               blacklisted s1 = blacklisted (st w1) -> (forall x, In x (gt_users s1) -> In x (gt_users (st w1))) ->
+               (forall x, In x la -> ~ In x (gt_users s1)) ->
+               forall nw, bl_only (st w) (s1 <| nr_winning := nw |> <| total_guaranteed := tg |>) /\
+                          GRes (vflag v) (s1 <| nr_winning := nw |> <| total_guaranteed := tg |>) tg).
+    { intros s1 tg (g & u & b & Hs2) HGW Hrg Hbl Hsub Hout nw. split.
+      - exists c, bl, g, u, b, nw, tg. rewrite Hs2, Hs1. reflexivity.
+      - destruct (GW_fields (vflag v) s1 (s1 <| nr_winning := nw |> <| total_guaranteed := tg |>) tg eq_refl eq_refl eq_refl HGW)
+          as (A & B & C & D).
+        split; [exact A|]. split; [exact B|]. split; [exact C|]. split; [exact D|].
+        intros x Hx. cbn in Hx. rewrite Hbl in Hx. apply Hblk in Hx. cbn. rewrite Hrg.
+        replace (range (st w1)) with (range (st w)) by (rewrite Hs1; reflexivity).
+        destruct Hx as [Hx|Hx].
+        + destruct (Hcl5 x Hx) as [Hr Hn]. split; [exact Hr|]. intros Hi2. apply Hsub in Hi2. rewrite Hs1 in Hi2. cbn in Hi2. contradiction.
+        + split; [apply Hrange; exact Hx|apply Hout; exact Hx]. }
+    destruct Hv as [-> | [-> | [-> | ->]]].
+    1,2,3: pose proof (clear_gt_v1_conserves _ _ _ H2) as Hrt2;
+      unfold clear_gt_after_blacklist_v1 in H2; apply bind_ok in H2; destruct H2 as ([[s1 rm] tg] & Hl & H2);
+      inversion H2; subst w2; clear H2;
+      destruct (clear_gt_loop_v1_only _ _ _ _ _ _ _ Hl) as [Ho _];
+      destruct (clear_gt_loop_v1_GW _ _ _ _ _ _ _ Hl HG1) as (HGW & Hrg & Hbl & Hsub & Hout);
+      rewrite st_set_st in *; rewrite bal_set_st;
+      (destruct (0 <? rm);
+       [ destruct (Hfin s1 tg Ho HGW Hrg Hbl Hsub Hout (nr_winning s1 + rm)) as [Hbo HGr]
+       | destruct (Hfin s1 tg Ho HGW Hrg Hbl Hsub Hout (nr_winning s1)) as [Hbo HGr];
+         replace (s1 <| nr_winning := nr_winning s1 |> <| total_guaranteed := tg |>) with (s1 <| total_guaranteed := tg |>) in * by (destruct s1; reflexivity) ]);
+      (split; [exact Hbo|split; [congruence|split; [exact HGr|reflexivity]]]).
+    pose proof (clear_gt_v2_conserves _ _ _ H2) as Hrt2.
+    unfold clear_gt_after_blacklist_v2 in H2. apply bind_ok in H2. destruct H2 as ([[s1 nw] tg] & Hl & H2).
+    inversion H2; subst w2; clear H2.
+    destruct (clear_gt_loop_v2_only _ _ _ _ _ _ _ Hl) as [Ho _].
+    destruct (clear_gt_loop_v2_GW _ _ _ _ _ _ _ Hl HG1) as (HGW & Hrg & Hbl & Hsub & Hout).
+    rewrite st_set_st in *. rewrite bal_set_st.
+    destruct (Hfin s1 tg Ho HGW Hrg Hbl Hsub Hout nw) as [Hbo HGr].
+    split; [exact Hbo|split; [congruence|split; [exact HGr|reflexivity]]]. }
+  destruct H2' as (Hbo & Hrt & HGr & Hb2).
+  apply bind_ok in E. destruct E as (w3 & H3 & E).
+  assert (w3 = w2) by (destruct Hv as [-> | [-> | [-> | ->]]]; cbn [has_nft] in H3; inversion H3; reflexivity). subst w3.
+  assert (Hi2 : LpInv (vflag v) w2).
+  { eapply LpInv_rebuild; [exact Hi|exact Hbo|exact Hrt|exact HGr|]. rewrite Hb2. exact Hb1. }
+  inversion E; subst w'; clear E.
+  destruct Hv as [-> | [-> | [-> | ->]]]; try exact Hi2.
+  destruct we; [|exact Hi2]. eapply LpInv_ext; [| |exact Hi2]; reflexivity.
+Qed.
+
+Theorem LpInv_unblacklist v e w la w' :
+  guar v -> LpInv (vflag v) w -> unblacklist_endpoint v e w la = Ok w' -> LpInv (vflag v) w'.
+Proof.
+  intros Hv Hi E. unfold unblacklist_endpoint in E.
+  apply bind_ok in E. destruct E as (w1 & H1 & E).
+  unfold remove_users_from_blacklist in H1. apply bind_ok in H1. destruct H1 as (u1 & _ & H1). apply bind_ok in H1. destruct H1 as (u2 & _ & H1).
+  apply bind_ok in H1. destruct H1 as (s1 & Hl & H1). inversion H1; subst w1; clear H1.
+  destruct (unblacklist_loop_only _ _ _ Hl) as (bl' & Hs1).
+  destruct (unblacklist_loop_facts _ _ _ Hl) as (Hndl & Hall & Hback).
+  pose proof (lp_res _ _ Hi) as HG. pose proof HG as (_ & _ & _ & _ & Hcl5).
+  assert (HG1 : GW (vflag v) s1 (total_guaranteed s1)).
+  { replace (total_guaranteed s1) with (total_guaranteed (st w)) by (rewrite Hs1; reflexivity).
+    apply (GW_fields _ (st w)); try (rewrite Hs1; reflexivity). apply GRes_GW. exact HG. }
+  assert (Hfin : forall s2 tg nw, gt_only s1 s2 -> GW (vflag v) s2 tg -> range s2 = range s1 -> blacklisted s2 = blacklisted s1 ->
+             (forall x, In x (gt_users s2) -> In x (gt_users s1) \/ In x la) ->
+             bl_only (st w) (s2 <| nr_winning := nw |> <| total_guaranteed := tg |>) /\
+             GRes (vflag v) (s2 <| nr_winning := nw |> <| total_guaranteed := tg |>) tg).
+  { intros s2 tg nw (g & u & b & Hs2) HGW Hrg Hbl Hsub. split.
+    - exists (confirmed (st w)), bl', g, u, b, nw, tg. rewrite Hs2, Hs1. destruct (st w); reflexivity.
+    - destruct (GW_fields (vflag v) s2 (s2 <| nr_winning := nw |> <| total_guaranteed := tg |>) tg eq_refl eq_refl eq_refl HGW)
+        as (A & B & C & D).
+      split; [exact A|]. split; [exact B|]. split; [exact C|]. split; [exact D|].
+      intros x Hx. cbn in Hx. rewrite Hbl in Hx. destruct (Hback x Hx) as [Hbx Hnl]. destruct (Hcl5 x Hbx) as [Hr Hn].
+      cbn. rewrite Hrg. replace (range s1) with (range (st w)) by (rewrite Hs1; reflexivity). split; [exact Hr|].
+      intros Hi2. destruct (Hsub x Hi2) as [Hi3|Hi3]; [|contradiction]. rewrite Hs1 in Hi3. cbn in Hi3. contradiction. }
+  assert (Hrt1 : reserve_total s1 = reserve_total (st w)) by (rewrite Hs1; reflexivity).
+  destruct Hv as [-> | [-> | [-> | ->]]]; try discriminate.
+  1,2: pose proof (unblacklist_gt_v1_conserves _ _ _ E) as Hrt2; rewrite st_set_st in Hrt2;
+       unfold unblacklist_gt_v1 in E; apply bind_ok in E; destruct E as ([[s2 nw] tg] & Hl2 & E); inversion E; subst w'; clear E;
+       rewrite st_set_st in *;
+       destruct (unbl_gt_loop_v1_only _ _ _ _ _ _ _ Hl2) as [Ho _];
+       destruct (unbl_gt_loop_v1_GW _ _ _ _ _ _ _ Hl2 HG1) as (HGW & Hrg & Hbl & Hsub);
+       destruct (Hfin s2 tg nw Ho HGW Hrg Hbl Hsub) as [Hbo HGr];
+       (eapply LpInv_rebuild; [exact Hi|rewrite st_set_st; exact Hbo|rewrite st_set_st; congruence|rewrite st_set_st; exact HGr|reflexivity]).
+  apply bind_ok in E. destruct E as (w2 & H2 & E). inversion E; subst w'; clear E.
+  pose proof (unblacklist_gt_v2_conserves _ _ _ H2) as Hrt2. rewrite st_set_st in Hrt2.
+  unfold unblacklist_gt_v2 in H2. apply bind_ok in H2. destruct H2 as ([[s2 nw] tg] & Hl2 & H2). inversion H2; subst w2; clear H2.
+  rewrite st_set_st in *.
+  destruct (unbl_gt_loop_v2_only _ _ _ _ _ _ _ Hl2) as [Ho _].
+  assert (Hout : forall x, In x la -> ~ In x (gt_users s1)).
+  { intros x Hx. destruct (Hcl5 x (Hall x Hx)) as [_ Hn]. rewrite Hs1. exact Hn. }
+  destruct (unbl_gt_loop_v2_GW _ _ _ _ _ _ _ Hl2 HG1 Hndl Hout) as (HGW & Hrg & Hbl & Hsub).
+  destruct (Hfin s2 tg nw Ho HGW Hrg Hbl Hsub) as [Hbo HGr].
+  eapply LpInv_ext; [| |eapply (LpInv_rebuild (vflag Gt2) w (set_st (set_st w s1) (s2 <| nr_winning := nw |> <| total_guaranteed := tg |>)));
+                         [exact Hi|rewrite st_set_st; exact Hbo|rewrite st_set_st; congruence|rewrite st_set_st; exact HGr|reflexivity]]; reflexivity.
+Qed.
+
 Section HSetupVested.
 Variable H : list N -> list N.
 
@@ -305,11 +722,11 @@ Proof.
     assert (Hsize : deposit_size v (st w0) = reserve_total (st w0)).
     { pose proof (deposit_size_is_reserve_total v (st w0)) as Hx. destruct Hv as [-> | [-> | [-> | ->]]]; exact Hx. }
     rewrite Hp in Hcr. apply credit_single in Hcr. apply transfer_ok in Hcr. destruct Hcr as [_ Hw1].
-    destruct Hi0 as [Htc Hcb (Hres & Hndg & Hr) Hbal Hdep Hsch Htok]. rewrite Hnd in Hdep.
+    destruct Hi0 as [Htc Hcb (Hres & Hndg & Hr & Hz & Hbl) Hbal Hdep Hsch Htok]. rewrite Hnd in Hdep.
     constructor; rewrite ?st_set_st, ?bal_set_st; cbn.
     + exact Htc.
     + exact Hcb.
-    + unfold GRes, total_reserved, reserved in *. cbn. repeat split; assumption.
+    + unfold GRes, total_reserved, reserved in *. cbn. repeat split; try assumption; apply Hbl; assumption.
     + rewrite Hw1. cbn. rewrite bal_after_to by exact Hcs. cbn in Hbal, Hdep. rewrite Hbal, Hdep. lia.
     + cbn in Hsize. rewrite Hsize. unfold reserve_total. cbn. reflexivity.
     + eapply sched_inv_ext; [| | | |exact Hsch]; reflexivity.
@@ -359,17 +776,18 @@ Proof.
   destruct (deploy_PreG v e lp tpt0 ptok price0 nrw conf ws claim x s Hv E Hlp) as [[_ Htok _] _].
   unfold deploy in E.
   assert (Hs : total_claimable s = (fun _ => 0) /\ claimed_balance s = (fun _ => 0) /\ total_guaranteed s = 0 /\
-               gt_users s = [] /\ total_deposited s = 0 /\ deposited s = false /\ sched1 s = None /\ sched2 s = None).
+               gt_users s = [] /\ total_deposited s = 0 /\ deposited s = false /\ sched1 s = None /\ sched2 s = None /\
+               uts s = (fun _ => None) /\ blacklisted s = (fun _ => false)).
   { destruct Hv as [-> | [-> | [-> | ->]]]; cbn [has_nft is_v1 has_lock has_extra negb] in E; mon_inv;
       repeat match goal with Hl : lock_init _ _ _ _ _ = Ok _ |- _ => unfold lock_init in Hl; mon_inv end;
       match goal with Hinit : init_base _ _ _ _ _ _ _ _ _ _ = Ok _ |- _ =>
         unfold init_base, try_set_tpt, try_set_ticket_price, try_set_nr_winning in Hinit; mon_inv end;
       cbn; repeat split; reflexivity. }
-  destruct Hs as (H1 & H2 & H3 & H4 & H5 & H6 & H7 & H8).
+  destruct Hs as (H1 & H2 & H3 & H4 & H5 & H6 & H7 & H8 & H9 & H10).
   constructor; cbn [st bal world0].
   - intros a. rewrite H1. reflexivity.
   - intros a. rewrite H2. reflexivity.
-  - unfold GRes, total_reserved. rewrite H3, H4. cbn. repeat split; [constructor|intros u []].
+  - unfold GRes, total_reserved, reserved. rewrite H3, H4, H9, H10. cbn. repeat split; try discriminate; [constructor|intros u []].
   - rewrite H5. unfold init_bal. replace ((1 <=? sc_addr) && (sc_addr <=? 24)) with false by (vm_compute; reflexivity). reflexivity.
   - rewrite H6. exact H5.
   - unfold sched_inv, schedule_v2. rewrite H7, H8. destruct (vflag v); [vm_compute; reflexivity|exact I].
@@ -384,7 +802,10 @@ Proof.
   intros Hv. induction 1 as [e lp tpt0 ptok price0 nrw conf ws claim x s Hd Hlp
                             | w e b sd c w' r _ IH Hc Hwf Hcs E
                             | w e b sd lx w' r _ IH Hpos Hsc E
-                            | w e b sd lx w' r _ IH Hsc E].
+                            | w e b sd lx w' r _ IH Hsc E
+                            | w e b sd la w' r _ IH Hsc E
+                            | w e b sd la w' r _ IH Hsc E
+                            | w e b sd la w' r _ IH E].
   - eapply deploy_LpInv; eauto.
   - eapply LpInv_exec_common; eauto.
   - set (w0 := w <| evs := [] |> <| rlog := [] |> <| locks := [] |> <| seeds := sd |>).
@@ -402,6 +823,26 @@ Proof.
     cbn [credit_payment bind] in E. cbn [dispatch] in E.
     destruct v; try discriminate. unfold ret0 in E. mon_inv.
     eapply LpInv_add_tickets_v2; eauto.
+  - set (w0 := w <| evs := [] |> <| rlog := [] |> <| locks := [] |> <| seeds := sd |>).
+    assert (Hi0 : LpInv (vflag v) w0) by (eapply LpInv_ext; [| |exact IH]; reflexivity).
+    unfold exec in E. cbn [payable] in E. fold w0 in E.
+    apply bind_ok in E. destruct E as (u & Hnp & E). apply no_payment_nil in Hnp. rewrite Hnp in E.
+    cbn [credit_payment bind] in E. cbn [dispatch] in E. unfold ret0 in E. mon_inv.
+    eapply LpInv_blacklist; eauto.
+  - set (w0 := w <| evs := [] |> <| rlog := [] |> <| locks := [] |> <| seeds := sd |>).
+    assert (Hi0 : LpInv (vflag v) w0) by (eapply LpInv_ext; [| |exact IH]; reflexivity).
+    unfold exec in E. cbn [payable] in E. fold w0 in E.
+    apply bind_ok in E. destruct E as (u & Hnp & E). apply no_payment_nil in Hnp. rewrite Hnp in E.
+    cbn [credit_payment bind] in E. cbn [dispatch] in E.
+    destruct v; try discriminate. unfold ret0 in E. mon_inv.
+    eapply (LpInv_blacklist Gt2); eauto.
+  - set (w0 := w <| evs := [] |> <| rlog := [] |> <| locks := [] |> <| seeds := sd |>).
+    assert (Hi0 : LpInv (vflag v) w0) by (eapply LpInv_ext; [| |exact IH]; reflexivity).
+    unfold exec in E. cbn [payable] in E. fold w0 in E.
+    apply bind_ok in E. destruct E as (u & Hnp & E). apply no_payment_nil in Hnp. rewrite Hnp in E.
+    cbn [credit_payment bind] in E. cbn [dispatch] in E.
+    destruct (has_unblacklist v); [|discriminate]. unfold ret0 in E. mon_inv.
+    eapply LpInv_unblacklist; eauto.
 Qed.
 
 (** ** from deployment to the launchpad-token ledger of the claim period (gt1, gt2) *)
